@@ -85,6 +85,15 @@ def idxJsOk : Expr → Bool
   | .var .param n => jsIdOk n && n != "me".toList
   | _ => false
 
+/-- receivers of a method call `x(#m, a, b)` for which the model's text is the translation: a local variable or parameter other than
+    `me` (`this.m(...)`: another generator branch) whose name is not rewritten by CallFunction (`specialCall`, `LIST_FUNCTIONS`: the
+    symbol in first position would be printed as a global).  A GLOBAL receiver is printed `_global.g(…)` only when the opcode knew it
+    as a global (agent-link2's `RecvNode` leaves both nodes open), so it stays outside -/
+def recvJsOk : Expr → Bool
+  | .var .loc n => jsIdOk n && n != "me".toList && !specialCall n && !listFn n
+  | .var .param n => jsIdOk n && n != "me".toList && !specialCall n && !listFn n
+  | _ => false
+
 mutual
 /-- expressions of the JavaScript link theorems: the whole domain of `Link.Emb` (integers, strings, symbols, the four variable
     kinds, unary and all 19 binary operators, `field`, plain function calls, linear lists) minus the two name clashes above (reserved words, D3 = F141; symbol arguments of
@@ -114,6 +123,7 @@ def JsOkE : Expr → Bool
       || (decide (t = .field) && JsOkE e)
   | .the .special k [] => decide (k < 6)
   | .key v => jsIdLex v
+  | .mcall o m as => recvJsOk o && sstrOk m && JsOkL as
   | _ => false
 def JsOkL : List Expr → Bool
   | [] => true
@@ -139,11 +149,21 @@ def prBare : JE → List JTok
   | .bin op a b => prJ a ++ (jsOpTok op).getD (.p .plus) :: prJ b
   | e => prJ e
 
+/-- the right-hand side of an assignment: `new LingoString(a + b)` of a `put … after / before` is written without the
+    parentheses of the sum (SpAssignOperation.generate_js), everything else as an expression -/
+def txRhs : JE → Str
+  | .newLS e => S "new LingoString(" ++ txBare e ++ S ")"
+  | e => txJ e
+
+def prRhs : JE → List JTok
+  | .newLS e => .id "new".toList :: .id "LingoString".toList :: .p .lp :: prBare e ++ [.p .rp]
+  | e => prJ e
+
 mutual
 /-- tokens of one statement as the translator writes it -/
 def prS : JS → List JTok
   | .expr e => prJ e ++ [.p .semi]
-  | .assign l r => prJ l ++ .p .assign :: prJ r ++ [.p .semi]
+  | .assign l r => prJ l ++ .p .assign :: prRhs r ++ [.p .semi]
   | .ret [] => [.id "return".toList, .p .semi]
   | .ret (e :: _) => .id "return".toList :: prJ e ++ [.p .semi]
   | .var n => [.id "var".toList, .id n, .p .semi]
@@ -155,6 +175,7 @@ def prS : JS → List JTok
   | .for3 v a c d b =>
     .id "for".toList :: .p .lp :: prJ v ++ .p .assign :: prJ a ++ .p .semi :: prBare c ++ .p .semi :: prJ v ++
       (if d then JTok.p .dec else JTok.p .inc) :: .p .rp :: .p .lc :: prBody b ++ [.p .rc]
+  | .forOf v l b => .id "for".toList :: .p .lp :: prJ v ++ .id "of".toList :: prJ l ++ .p .rp :: .p .lc :: prBody b ++ [.p .rc]
   | _ => []
 def prBody : List JS → List JTok
   | [] => []
@@ -164,7 +185,7 @@ end
 /-- text of one SIMPLE statement line WITHOUT indentation and line end -/
 def txS : JS → Str
   | .expr e => txJ e ++ S ";"
-  | .assign l r => txJ l ++ S " = " ++ txJ r ++ S ";"
+  | .assign l r => txJ l ++ S " = " ++ txRhs r ++ S ";"
   | .ret [] => S "return;"
   | .ret (e :: _) => S "return " ++ txJ e ++ S ";"
   | .var n => S "var " ++ n ++ S ";"
@@ -182,6 +203,8 @@ def txT (ind : Nat) : JS → Str
   | .for3 v a c d b =>
     Lscr.indentOf ind ++ S "for(" ++ txJ v ++ S " = " ++ txJ a ++ S "; " ++ txBare c ++ S "; " ++ txJ v ++
       (if d then S "--" else S "++") ++ S ") {\n" ++ txBody (ind + 1) b ++ Lscr.indentOf ind ++ S "}\n"
+  | .forOf v l b =>
+    Lscr.indentOf ind ++ S "for(" ++ txJ v ++ S " of " ++ txJ l ++ S ") {\n" ++ txBody (ind + 1) b ++ Lscr.indentOf ind ++ S "}\n"
   | s => Lscr.indentOf ind ++ txS s ++ S "\n"
 /-- the lines of a body at indentation level `ind` -/
 def txBody (ind : Nat) : List JS → Str
@@ -190,7 +213,8 @@ def txBody (ind : Nat) : List JS → Str
 end
 
 /-- assignment targets: the four variable kinds (`me` is not assignable), `the P of <variable>` (opcode 62) and the built-in
-    properties `the P of sprite|cast|sound n` (5d 06 / 09 / 04 / 0d) of `JsOkE`; `set the P of field n` is finding F38 -/
+    properties `the P of sprite|cast|sound n` (5d 06 / 09 / 04 / 0d) of `JsOkE`, `the floatPrecision` … `the timeoutScript` (5d 00);
+    `set the P of field n` is finding F38 -/
 def JsOkLv : Expr → Bool
   | .var .loc n => jsIdOk n
   | .var .param n => jsIdOk n
@@ -201,6 +225,7 @@ def JsOkLv : Expr → Bool
   | .oprop v (.var .glob n) => jsIdLex v && jsIdLex n
   | .oprop v (.var .prop n) => jsIdLex v && jsIdLex n
   | .the t k [e] => (Link.theTbl t).isSome && JsOkE (.the t k [e])
+  | .the .special k [] => decide (k < 6)
   | _ => false
 
 /-- targets of `delete` / `hilite`: the bottom of the chunk chain is not a global variable.  A global referenced by NAME (`46 n`) is a
@@ -211,8 +236,19 @@ def tgOk : Expr → Bool
   | .var .glob _ => false
   | _ => true
 
+/-- targets of `put … into / after / before`: a chain of chunks over a field (addressed through its `.text`) or a local variable,
+    parameter or declared property (a global: see `tgOk`) -/
+def JsOkTg : Expr → Bool
+  | .chunk _ a b d => JsOkE a && JsOkE b && JsOkTg d
+  | .field e => JsOkE e
+  | .var .loc n => jsIdOk n && n != "me".toList
+  | .var .param n => jsIdOk n && n != "me".toList
+  | .var .prop n => jsIdLex n
+  | _ => false
+
 /-- statements of the JavaScript link theorems: `set <variable> = e`, command calls `f a, b` (incl. calls of handlers of the
-    same script: `fn_call(f(a, b))`), `return` / `return e`, `exit`, `delete <chunk>` / `hilite <chunk>` (`delete(x.word[2]);`) -/
+    same script: `fn_call(f(a, b))`), `return` / `return e`, `exit`, `delete <chunk>` / `hilite <chunk>` (`delete(x.word[2]);`),
+    `put v into|after|before <target>` (`t = v;` / `t = new LingoString(t + v);` / `t = new LingoString(v + t);`) -/
 def JsOkS : Stmt → Bool
   | .set lv v => JsOkLv lv && JsOkE v
   | .call f as =>
@@ -221,6 +257,8 @@ def JsOkS : Stmt → Bool
   | .exit => true
   | .delete t => JsOkE t && tgOk t
   | .hilite t => JsOkE t && tgOk t
+  | .put _ v lv => JsOkE v && JsOkTg lv
+  | .mcall o m as => JsOkE (.mcall o m as)
   | _ => false
 
 def JsOkSs : List Stmt → Bool
@@ -229,16 +267,19 @@ def JsOkSs : List Stmt → Bool
 
 mutual
 /-- structured statements of the JavaScript link theorems: the simple statements of `JsOkS`, `if c then … [else …]`,
-    `repeat while c`, `repeat with <local> = a [down] to b`, nested without bound -/
+    `repeat while c`, `repeat with <local> = a [down] to b`, `repeat with <local> in l` (`for(x of l) {`), nested without bound -/
 def JsOkT : Stmt → Bool
   | .ifThen c t e => JsOkE c && JsOkTs t && JsOkTs e
   | .repeatWhile c b => JsOkE c && JsOkTs b
   | .repeatWith (.var .loc v) a b _ body => jsIdOk v && JsOkE a && JsOkE b && JsOkTs body
+  | .repeatIn (.var .loc v) l body => jsIdOk v && JsOkE l && JsOkTs body
   | .set lv v => JsOkS (.set lv v)
   | .call f as => JsOkS (.call f as)
   | .exit => true
   | .delete t => JsOkS (.delete t)
   | .hilite t => JsOkS (.hilite t)
+  | .put m v lv => JsOkS (.put m v lv)
+  | .mcall o m as => JsOkS (.mcall o m as)
   | _ => false
 def JsOkTs : List Stmt → Bool
   | [] => true
@@ -255,12 +296,20 @@ def EmbSJ (handlers : List Name) : Stmt → Node → Prop
   | .call f as, n => ∃ p q q' ops, n = .stmt p (.callFn (.s f) q (.loadList (S "load_list") q' ops.reverse) true false
       (handlers.contains f) .none) ∧ Link.EmbL as ops
   | .exit, n => ∃ p q, n = .stmt p (.callFn (.s (S "exit")) q .none true false false .none)
+  | .put m v lv, n => ∃ p q l r, n = .stmt p (.spAssign q l r m.tag.toList) ∧ Link.EmbTg lv l ∧ Link.Emb v r
+  | .mcall o m as, n => ∃ p q q' ps rc ops nm, Link.mcallRecv o = some nm ∧
+      n = .stmt p (.callFn (.s nm) q (.loadList (S "load_list") q' (ops.reverse ++ [.sym (.s m) ps false])) true false false rc) ∧
+      Link.EmbL as ops ∧ Link.RecvNode o nm rc
   | .ifThen c t e, n => ∃ p q cn ifs els, n = .stmt p (.ifThen q cn ifs els) ∧ Link.Emb c cn ∧ EmbSsJ handlers t ifs ∧ EmbSsJ handlers e els
   | .repeatWhile c b, n => ∃ p rp re cn body,
       n = .stmt p (.repeat_ rp re cn body (S "while") .none (.s []) [] .none) ∧ Link.Emb c cn ∧ EmbSsJ handlers b body
   | .repeatWith (.var .loc v) a b down body, n => ∃ p rp re cp pv1 pv2 ra rb body',
       n = .stmt p (.repeat_ rp re (.binary (if down then S "gte" else S "lte") cp (.leaf .localVar (.s v) pv1) rb) body' (S "for") ra (.s v)
         (if down then S "-" else S "+") (.leaf .localVar (.s v) pv2)) ∧ Link.Emb a ra ∧ Link.Emb b rb ∧ EmbSsJ handlers body body'
+  | .repeatIn (.var .loc v) l body, n => ∃ p rp re pb pk pc pl pv ln body',
+      n = .stmt p (.repeat_ rp re (.binary (S "lte") pb (.leaf .const (.s (S "1")) pk)
+          (.callFn (.s (S "count")) pc (.loadList (S "<load_list>") pl [ln]) true false false .none))
+        body' (S "for_in") ln (.s v) [] (.leaf .localVar (.s v) pv)) ∧ Link.Emb l ln ∧ EmbSsJ handlers body body'
   | s, n => Link.EmbSH handlers s n
 
 def EmbSsJ (handlers : List Name) : List Stmt → List Node → Prop
